@@ -231,11 +231,13 @@ func (am *AccountingManager) Stop() error {
 		am.drainAllSessions()
 	}
 
+	verifPoint("shutdown:drained")
 	// Persist pending records before shutdown
 	if err := am.persistPendingRecords(); err != nil {
 		am.logger.Warn("Failed to persist pending records", zap.Error(err))
 	}
 
+	verifPoint("shutdown:pending-persisted")
 	// Cancel context and wait for workers
 	am.cancel()
 	am.wg.Wait()
@@ -282,6 +284,7 @@ func (am *AccountingManager) StartSession(session *AccountingSession) error {
 	ctx, cancel := context.WithTimeout(am.ctx, 5*time.Second)
 	defer cancel()
 
+	verifPoint("start:before-send")
 	if err := am.client.SendAccounting(ctx, req); err != nil {
 		// Queue for retry
 		am.queuePendingRecord(req)
@@ -291,8 +294,10 @@ func (am *AccountingManager) StartSession(session *AccountingSession) error {
 		)
 	}
 
+	verifPoint("start:after-send")
 	// Persist session for crash recovery
 	am.persistActiveSession(session)
+	verifPoint("start:persisted")
 
 	am.logger.Info("Accounting started for session",
 		zap.String("session_id", session.SessionID),
@@ -318,6 +323,7 @@ func (am *AccountingManager) StopSession(sessionID string, terminateCause uint32
 
 	// Persist state before attempting stop
 	am.persistActiveSession(session)
+	verifPoint("stop:persisted-pending")
 
 	// Send Accounting-Stop
 	if err := am.sendAccountingStop(session, terminateCause); err != nil {
@@ -332,8 +338,10 @@ func (am *AccountingManager) StopSession(sessionID string, terminateCause uint32
 	delete(am.sessions, sessionID)
 	am.sessionsMu.Unlock()
 
+	verifPoint("stop:unregistered")
 	// Remove persisted session
 	am.removePersistedSession(sessionID)
+	verifPoint("stop:file-removed")
 
 	return nil
 }
@@ -386,7 +394,9 @@ func (am *AccountingManager) sendAccountingStop(session *AccountingSession, term
 	ctx, cancel := context.WithTimeout(am.ctx, 5*time.Second)
 	defer cancel()
 
+	verifPoint("stop:before-send")
 	err := am.client.SendAccounting(ctx, req)
+	verifPoint("stop:after-send")
 	if err != nil {
 		// Queue for reliable delivery
 		am.queuePendingRecord(req)
@@ -472,7 +482,9 @@ func (am *AccountingManager) sendInterimUpdate(session *AccountingSession) {
 	ctx, cancel := context.WithTimeout(am.ctx, 5*time.Second)
 	defer cancel()
 
+	verifPoint("interim:before-send")
 	err := am.client.SendAccounting(ctx, req)
+	verifPoint("interim:after-send")
 
 	am.sessionsMu.Lock()
 	if err != nil {
@@ -547,6 +559,7 @@ func (am *AccountingManager) queuePendingRecord(req *AcctRequest) {
 			zap.String("session_id", req.SessionID),
 		)
 	}
+	verifPoint("queue:inserted")
 }
 
 // pendingRecordProcessor processes pending accounting records with retries
@@ -575,7 +588,9 @@ func (am *AccountingManager) processPendingRecord(record *PendingAcctRecord) {
 	ctx, cancel := context.WithTimeout(am.ctx, 5*time.Second)
 	defer cancel()
 
+	verifPoint("retry:before-send")
 	err := am.client.SendAccounting(ctx, record.Request)
+	verifPoint("retry:after-send")
 	if err == nil {
 		// Success - remove from pending
 		am.pendingMu.Lock()
@@ -713,6 +728,7 @@ func (am *AccountingManager) sendAccountingStopSync(ctx context.Context, session
 		Class:          session.Class,
 	}
 
+	verifPoint("drain:before-send")
 	if err := am.client.SendAccounting(ctx, req); err != nil {
 		am.logger.Warn("Failed to send Accounting-Stop during drain",
 			zap.String("session_id", session.SessionID),
@@ -721,6 +737,7 @@ func (am *AccountingManager) sendAccountingStopSync(ctx context.Context, session
 		// Queue for persistence - will be recovered on next startup
 		am.queuePendingRecord(req)
 	}
+	verifPoint("drain:after-send")
 }
 
 // Persistence methods for crash recovery
@@ -771,6 +788,7 @@ func (am *AccountingManager) persistPendingRecords() error {
 		return fmt.Errorf("write pending records: %w", err)
 	}
 
+	verifPoint("pending:written")
 	am.logger.Info("Persisted pending accounting records", zap.Int("count", len(am.pendingRecords)))
 	return nil
 }
@@ -833,13 +851,16 @@ func (am *AccountingManager) recoverOrphanedSessions() error {
 		}
 
 		ctx, cancel := context.WithTimeout(am.ctx, 5*time.Second)
+		verifPoint("recover:before-send")
 		if err := am.client.SendAccounting(ctx, req); err != nil {
 			am.queuePendingRecord(req)
 		}
 		cancel()
 
+		verifPoint("recover:after-send")
 		atomic.AddUint64(&am.orphanedRecovered, 1)
 		os.Remove(path)
+		verifPoint("recover:file-removed")
 	}
 
 	// Recover pending records
@@ -868,8 +889,10 @@ func (am *AccountingManager) recoverOrphanedSessions() error {
 	atomic.StoreUint64(&am.pendingQueueDepth, uint64(len(am.pendingRecords)))
 	am.pendingMu.Unlock()
 
+	verifPoint("recover:pending-loaded")
 	am.logger.Info("Recovered pending accounting records", zap.Int("count", len(records)))
 	os.Remove(pendingPath)
+	verifPoint("recover:pending-removed")
 
 	return nil
 }
